@@ -51,8 +51,10 @@ AllParams   == PerMock \cup PerFile \cup PerPackage \cup TopOnly
 \* template-data seen through a BUILT-IN template: the keys the matryer template documents (with-resets,
 \* stub-impl, skip-ensure are per-mock switches) -- a second focus on the parameter template-data
 TDMatryer   == "template-data@matryer"
-FocusParams == AllParams \cup {TDMatryer}
-RealParam(p) == IF p = TDMatryer THEN "template-data" ELSE p
+TDTestify   == "template-data@testify"      \* unroll-variadic, a per-mock switch of the testify template
+TDBuiltin   == {TDMatryer, TDTestify}
+FocusParams == AllParams \cup TDBuiltin
+RealParam(p) == IF p \in TDBuiltin THEN "template-data" ELSE p
 
 ParamSeq == <<"dir", "filename", "pkgname", "structname", "template-data", "replace-type", "template", "template-schema",
               "require-template-schema-exists", "formatter", "force-file-write", "all", "include-interface-regex",
@@ -133,6 +135,7 @@ ValueAt(p, n, h, profile) ==
            [] profile = "matryer"  -> M(("with-resets" :> S(IF h % 2 = 1 THEN "#true" ELSE "#false"))
                                         @@ ("stub-impl" :> S(IF h % 2 = 1 THEN "#true" ELSE "#false"))
                                         @@ ("skip-ensure" :> S(IF h % 2 = 0 THEN "#true" ELSE "#false")))
+           [] profile = "testify"  -> M(("unroll-variadic") :> S(IF h % 2 = 1 THEN "#true" ELSE "#false"))
            [] OTHER                -> M(("mock-build-tags") :> S(n))
     [] p = "replace-type" -> RTVal(n, h % NRT)
     [] OTHER -> n
@@ -143,7 +146,7 @@ ChainOf(p) ==
   CASE p = "log-level" -> <<"env", "root", "flag">>
     [] p = "exclude-subpkg-regex" -> <<"root", "p1">>
     [] p \in PerPackage -> <<"env", "root", "p1">>
-    [] p \in MapParams \cup {TDMatryer} -> <<"root", "p1", "p1A", "p1A1">>
+    [] p \in MapParams \cup TDBuiltin -> <<"root", "p1", "p1A", "p1A1">>
     [] OTHER -> <<"env", "root", "p1", "p1A", "p1A1">>
 
 SiblingOf(n) ==
@@ -152,6 +155,7 @@ SiblingOf(n) ==
 ProfileOf(p) ==
   CASE p \in {"template"} -> "template"
     [] p = TDMatryer -> "matryer"
+    [] p = TDTestify -> "testify"
     [] p \in {"template-schema", "require-template-schema-exists"} -> "schema"
     [] p \in PerPackage -> "select"
     [] p = "log-level" -> "sources"
@@ -162,11 +166,11 @@ Pow(b, e) == IF e = 0 THEN 1 ELSE IF e = 1 THEN b ELSE IF e = 2 THEN b * b ELSE 
 Digit(v, b, j) == (v \div Pow(b, j)) % b          \* j-th digit (from 0) of v in base b
 RankIn(ch, SS, n) == Cardinality({i \in 1..Len(ch) : ch[i] \in SS /\ i < (CHOOSE x \in 1..Len(ch) : ch[x] = n)})
 
-Base(p) == IF p \in Bools \cup {TDMatryer} THEN 2 ELSE IF p \in {"formatter", "log-level"} THEN 3 ELSE 1
+Base(p) == IF p \in Bools \cup TDBuiltin THEN 2 ELSE IF p \in {"formatter", "log-level"} THEN 3 ELSE 1
 \* how many value assignments are enumerated for the levels in SS
 NVar(p, SS) ==
   LET c == Cardinality(SS) IN
-  CASE p \in Bools \/ p \in {"formatter", "log-level", TDMatryer} ->
+  CASE p \in Bools \/ p \in {"formatter", "log-level"} \cup TDBuiltin ->
          IF Tier = "thorough" THEN (IF Pow(Base(p), c) > 27 THEN 27 ELSE Pow(Base(p), c)) ELSE IF c = 0 THEN 1 ELSE 2
     [] p \in MapParams -> IF Tier = "thorough" THEN 4 ELSE 2
     [] p \in Regexes \/ p = "exclude-subpkg-regex" -> IF Tier = "thorough" THEN 3 ELSE 2
@@ -188,7 +192,7 @@ ChainH(dd, n) ==
 
 ShareModes(p) ==
   IF p \in PerFile \cup {"pkgname"} THEN {"none", "entries", "package"}
-  ELSE IF p \in {"structname", "template-data", "replace-type", TDMatryer} THEN {"none", "entries"} ELSE {"none"}
+  ELSE IF p \in {"structname", "template-data", "replace-type"} \cup TDBuiltin THEN {"none", "entries"} ELSE {"none"}
 
 \* levels that may be in S under a share mode (mocks sharing a file must agree on per-file parameters and pkgname)
 SAllowed(p, share) ==
@@ -233,9 +237,11 @@ Bg(profile, focus, rec) ==
     [] profile = "template" ->
          [root |-> [all |-> TRUE] @@ ("require-template-schema-exists" :> FALSE), p1 |-> IF rec THEN [recursive |-> TRUE] ELSE << >>]
     [] profile = "schema" ->
-         [root |-> [template |-> "root", all |-> TRUE]]
+         [root |-> [template |-> "root", all |-> TRUE], p1 |-> IF rec THEN [recursive |-> TRUE] ELSE << >>]
     [] profile = "matryer" ->
          [root |-> [template |-> "matryer", all |-> TRUE], p1 |-> IF rec THEN [recursive |-> TRUE] ELSE << >>]
+    [] profile = "testify" ->      \* template unset: the default
+         [root |-> [all |-> TRUE], p1 |-> IF rec THEN [recursive |-> TRUE] ELSE << >>]
     [] profile = "sources" ->
          [root |-> [template |-> "root", all |-> TRUE] @@ ("require-template-schema-exists" :> FALSE)
                    @@ ("include-interface-regex" :> {"A"})]      \* all + include: the run logs a warning
@@ -273,7 +279,8 @@ ChainValue(dd, n, p) ==
 Profiles == {"mock", "template", "schema", "select"}
 Vary(profile) ==
   CASE profile = "mock" -> {"dir", "filename", "pkgname", "structname", "template-data", "replace-type", "formatter", "force-file-write"}
-    [] profile = "template" -> {"template", "dir", "filename", "pkgname", "structname", "template-data", "replace-type", "force-file-write"}
+    [] profile = "template" -> {"template", "dir", "filename", "pkgname", "structname", "template-data", "replace-type", "force-file-write",
+                                "template-schema", "require-template-schema-exists"}
     [] profile = "schema" -> {"template-schema", "require-template-schema-exists", "template", "dir", "filename", "structname"}
     [] OTHER -> PerPackage \cup {"structname", "filename"}
 
@@ -318,7 +325,7 @@ SameFile(cfg, m1, m2) ==
      /\ d1 = d2 /\ (d1 = DEFAULT \/ m1.letter = m2.letter)
      /\ f1 = f2 /\ (f1 = DEFAULT \/ m1.letter = m2.letter)
 
-BuiltinKeys(t) == IF t = "matryer" THEN {"mock-build-tags", "with-resets", "stub-impl", "skip-ensure"} ELSE {"mock-build-tags"}
+BuiltinKeys(t) == IF t = "matryer" THEN {"mock-build-tags", "with-resets", "stub-impl", "skip-ensure"} ELSE {"mock-build-tags", "unroll-variadic"}
 BuiltinSafe(v, t) == v.t = "m" /\ DOMAIN v.kv \subseteq BuiltinKeys(t) /\ \A k \in DOMAIN v.kv : v.kv[k].t = "s"
 
 WellFormed(cfg) ==
